@@ -38,13 +38,12 @@ CHECKS = {
         'Lean 4 theorems: node list = sorted duplicate-free endpoints (+ owl:Thing exactly when >= 2 parentless terms); root = the '
         'single parentless term or owl:Thing whose children are exactly the parentless terms; root has no parents; every other node '
         'is a descendant of the root (finite + acyclic => well-founded, Mathlib); root finding preserves acyclicity; the factory is '
-        'total on every acyclic non-empty edge list not mentioning owl:Thing; INVARIANCE: edge lists with the same edge set give the '
+        'total on every acyclic non-empty edge list in which owl:Thing is not mentioned when it has to be added (OwlOk: an edge list that mentions owl:Thing and has a single parentless term is inside the domain); INVARIANCE: edge lists with the same edge set give the '
         'same nodes, root and query answers up to order. Tie: metamorphic groups (all permutations and single repeats of every small '
         'edge list, random shuffles/multisets of repeats) x 3 factories compared with the model and with each other, plus direct '
         'structural checks of each clause on the implementation.',
-        'hypothesis owl:Thing not an endpoint of the input; at the excluded point the code fails (open known finding '
-        'owl-thing-is-parentless-endpoint). Invariance is proved for the indexed factory; for the two matrix factories it is checked '
-        'by the metamorphic correspondence run.',
+        'hypothesis OwlOk: owl:Thing is not an endpoint of the input when two or more terms are parentless; at the excluded point the code '
+        'fails (open known finding owl-thing-is-parentless-endpoint). invariance_all_factories / structure_all_factories cover all three factories.',
         'Lean 4 proof (invariance + root/node characterisation, Mathlib well-foundedness) + metamorphic differential correspondence',
         'DESIGN.md §6 C02'),
     'C03': (
@@ -164,10 +163,13 @@ CHECKS = {
         'index recovery returns a permutation of 0..n-1 whose image of the input is the in-order sequence; n-1 merges; (0,) for a '
         'singleton; the result is a function of ids and trace. Tie: permutation-ness, singleton, untouched input, second call, '
         'TermId vs Identified checked directly; the merge trace is recorded by wrapping Node.make_tagged_node/merge_nodes from '
-        'outside and the exact tuple is compared with the model replaying that trace; several calls share one sorter instance.',
+        'outside and the exact tuple is compared with the model replaying that trace; several calls share one sorter instance. '
+        'ALSO the clustering policy itself is in the model (similarity matrix with zero diagonal, first maximum, epsilon branch, two pops): '
+        'policy_permutation proves that for EVERY similarity oracle and every epsilon no round pops outside its list and argsort is a '
+        'permutation, with no hypothesis about the merges; the similarities the measure is seen to return are replayed through the model policy.',
         'if a refactoring makes the trace unobservable the exact-tuple comparison degrades to a logged count, the relational '
         'checks remain.',
-        'Lean 4 proof (for all merge traces) + relational/trace-replay correspondence',
+        'Lean 4 proof (for all merge traces, and for the clustering policy under every similarity oracle) + relational/trace-replay/policy-replay correspondence',
         'DESIGN.md §6 C13'),
     'C14': (
         'Lean 4 theorems, both graph classes: an unknown node (any sort position; uses sortedness of the node array, proved for all '
@@ -186,9 +188,14 @@ CHECKS = {
         'items; re-inserting the listed items preserves every read (core of the CSV round trip); metadata decode(encode m) = m for '
         'EVERY table of forbidden characters containing ; = LF CR, the encoded line has no line break, reserved characters are '
         'rejected. Tie: all histories up to length 3-4 over two keys, random histories with extreme floats; the forbidden table is '
-        'extracted from the running code on every run and TableOk is evaluated by the model; real .csv/.csv.gz round trips.',
-        'floats are mapped to integers by an order-preserving injection (the code only compares with 0 and stores); csv/gzip/'
-        'repr(float) are exercised by the correspondence run, not modelled; keys are CURIE-like (no leading #, no line breaks).',
+        'extracted from the running code on every run and TableOk is evaluated by the model; real .csv/.csv.gz round trips. '
+        'THE FILE: the csv dialect is a model of its own (writer with minimal or any stronger quoting, the reader state machine over the physical lines of a newline=\'\' handle, '
+        'the DictReader layer): csv_round_trip (read (write rows) = rows for all rows and field contents, delimiters / quotes / CR / LF / CR LF inside fields included), '
+        'file_round_trip (title + metadata + csv lines -> metadata and records by column name) and container_file_round_trip (to_csv then from_csv, container to container, '
+        'for every value format that float() undoes). Tie of the csv model: against the csv module itself on every text up to length 5 over {a , " CR LF} and thousands of '
+        'hostile texts / written tables, and against every file to_csv writes, both ways (model reads the real file = from_csv; model writer = the real file, line for line).',
+        'floats are mapped to integers by an order-preserving injection (the code only compares with 0 and stores); gzip, the codec and '
+        'repr(float) / float(str) are exercised by the correspondence run, not modelled; term ids may contain any characters.',
         'Lean 4 proof (history machine + codec round trip, parametric in the source-extracted table) + exhaustive/random correspondence',
         'DESIGN.md §6 C15'),
     'C16': (
@@ -206,7 +213,7 @@ CHECKS = {
         'Lean 4 theorems: for EVERY assignment history (any order, overwrites, out-of-shape attempts) the flat-array builder '
         '(__setitem__ with its scan over the whole column deque) is the CSR form of strictly column-sorted rows that read '
         'densely as the last-write-wins matrix (refinement via the commuting lemma setItem/ofRows); for every well-formed CSR '
-        'triple cell / row / col_indices_of_val equal the dense matrix (ascending duplicate-free column list); every '
+        'triple cell / row / col_indices_of_val equal the dense matrix (ascending duplicate-free column list), and so they do for triples whose rows list their columns in any order (csr_reads_any_column_order; duplicate-free column list in storage order); every '
         'out-of-shape row/column (negative included) raises. Tie: all histories of length <= 3 (values {1,-1,2}) and length 4 '
         '(values {1,-1}) on small shapes, random histories up to 6x7 / 40 assignments, random CSR triples with int/float/bool '
         'dtypes; every read compared with the compiled model.',
